@@ -4,6 +4,9 @@ mod probe;
 mod common;
 mod c03;
 mod c05;
+mod c06;
+mod c07;
+mod c10;
 
 fn run(name: &str, ctx: &mut rvcore::Ctx) -> bool {
     match name {
@@ -12,6 +15,9 @@ fn run(name: &str, ctx: &mut rvcore::Ctx) -> bool {
         "warmup" => smoke::run_warmup(ctx),
         "c03" => c03::run_c03(ctx),
         "c05" => c05::run_c05(ctx),
+        "c06" => c06::run_c06(ctx),
+        "c07" => c07::run_c07(ctx),
+        "c10" => c10::run_c10(ctx),
         _ => return false
     }
     true
